@@ -249,7 +249,9 @@ try:
     w = PX.world_from_pool(pool)
     out['post'] = PX.projection_with_decor(w)
     S = w.project()
-    out['probes_before'] = P.run(w, S, {'kind': 'C05', 'full': False, 'nofilter': True})
+    # query_first = False: the copy is MUTATED BEFORE its first query in this interpreter (memos that travelled in
+    # the pickle must be dropped by a mutation even though nothing was looked up here yet)
+    out['probes_before'] = P.run(w, S, {'kind': 'C05', 'full': False, 'nofilter': True}) if job.get('query_first', True) else []
     for c in job['calls']:
         pre = w.project()
         res = w.apply(c)
@@ -267,7 +269,7 @@ json.dump(out, open(sys.argv[2], 'w'))
 """
 
 
-def roundtrip_fresh(w, protocol, loader, caching, calls, wd, tag):
+def roundtrip_fresh(w, protocol, loader, caching, calls, wd, tag, query_first=True):
     """dump here, load + query + continue the history in a NEW interpreter"""
     from edgegraph.output import nrpickler
     data_path = os.path.join(wd, f"fresh-{tag}.pkl")
@@ -283,7 +285,7 @@ def roundtrip_fresh(w, protocol, loader, caching, calls, wd, tag):
     except Exception as exc:
         return {"err": "dump:" + type(exc).__name__}
     with open(job_path, "w") as f:
-        json.dump({"data": data_path, "loader": loader, "caching": caching, "calls": calls}, f)
+        json.dump({"data": data_path, "loader": loader, "caching": caching, "calls": calls, "query_first": query_first}, f)
     p = subprocess.run([sys.executable, script, job_path, out_path], capture_output=True, text=True, timeout=120,
                        env=dict(os.environ, PYTHONHASHSEED="0"))
     if not os.path.exists(out_path):
